@@ -477,7 +477,16 @@ func famAlias(o *Out, r R, tier string) {
 			}
 			return out
 		}
-		b1, b2 := baseline(m1), baseline(&m2)
+		// reference answers come from a FRESH middleware per probe, so that they cannot depend on any request history
+		fresh := func(c cors.Config) []string {
+			out := make([]string, len(probes))
+			for j, q := range probes {
+				fm := newMW(&c, debug)
+				out[j] = str(serveOnce(fm, q, pre).sx())
+			}
+			return out
+		}
+		b1, b2 := fresh(c1), fresh(c2)
 		cfg1, cfg2 := str(cfgSX(m1.Config())), str(cfgSX(m2.Config()))
 		check := func(step string) {
 			a1, a2 := baseline(m1), baseline(&m2)
